@@ -57,7 +57,7 @@ func (vc *VC) resolveMods(sc *SpecScope, c *Contract) (targets []ModTarget, whol
 				comp = comp + "." + f.Name()
 				T = f.Type()
 			}
-			leafComps(comp, T, 1, func(cn, srt string) {
+			vc.leafComps(comp, T, 1, func(cn, srt string) {
 				targets = append(targets, ModTarget{comp: cn, sort: srt, lvl: 1, idx: ref, text: m.Text})
 			})
 			continue
@@ -70,7 +70,7 @@ func (vc *VC) resolveMods(sc *SpecScope, c *Contract) (targets []ModTarget, whol
 						vc.specFail(sc, "modifies %s: not a slice", m.Text)
 					}
 					et := under(s.T).(*types.Slice).Elem()
-					leafComps(elemCompPrefix(et), et, 2, func(cn, srt string) {
+					vc.leafComps(elemCompPrefix(et), et, 2, func(cn, srt string) {
 						targets = append(targets, ModTarget{comp: cn, sort: srt, lvl: 2, idx: s.Arr, text: m.Text})
 					})
 					continue
@@ -82,14 +82,14 @@ func (vc *VC) resolveMods(sc *SpecScope, c *Contract) (targets []ModTarget, whol
 					}
 					mp := mapCompPrefix(mv.T)
 					targets = append(targets, ModTarget{comp: mp + ".dom", sort: "(Array Int (Array Int Bool))", lvl: 2, idx: mv.Term, text: m.Text})
-					leafComps(mp+".val", mt.Elem(), 2, func(cn, srt string) {
+					vc.leafComps(mp+".val", mt.Elem(), 2, func(cn, srt string) {
 						targets = append(targets, ModTarget{comp: cn, sort: srt, lvl: 2, idx: mv.Term, text: m.Text})
 					})
 					continue
 				case "all":
 					base := vc.evalSpec(sc, x.Args[0])
 					elT := under(base.T).(*types.Pointer).Elem()
-					leafComps(cellPrefix(elT), elT, 1, func(cn, srt string) {
+					vc.leafComps(cellPrefix(elT), elT, 1, func(cn, srt string) {
 						targets = append(targets, ModTarget{comp: cn, sort: srt, lvl: 1, idx: base.Term, text: m.Text})
 					})
 					continue
@@ -99,7 +99,7 @@ func (vc *VC) resolveMods(sc *SpecScope, c *Contract) (targets []ModTarget, whol
 					if o == nil {
 						vc.specFail(sc, "modifies %s: unknown global", m.Text)
 					}
-					leafComps("global:"+o.Pkg().Path()+"."+o.Name(), o.Type(), 0, func(cn, srt string) {
+					vc.leafComps("global:"+o.Pkg().Path()+"."+o.Name(), o.Type(), 0, func(cn, srt string) {
 						targets = append(targets, ModTarget{comp: cn, sort: srt, lvl: 0, text: m.Text})
 					})
 					continue
@@ -124,9 +124,15 @@ func (vc *VC) havocTargets(st *State, targets []ModTarget) {
 		switch t.lvl {
 		case 0:
 			st.heap[t.comp] = vc.fresh("H_"+t.comp, t.sort)
-		default:
+			st.logWrite(t.comp, "*")
+		case 1:
 			nv := vc.fresh("hv", innerSort(t.sort))
+			vc.heapSymWF(nv, t.comp, innerSort(t.sort), st.alloc)
 			st.heap[t.comp] = vc.bindTerm(st, "H_"+t.comp, t.sort, sto(h, t.idx, nv))
+			st.logWrite(t.comp, t.idx)
+		default:
+			n := vc.rowUpdate(st, t.comp, t.sort, t.idx, nil)
+			vc.heapSymWF(n, t.comp, t.sort, st.alloc)
 		}
 		vc.written[t.comp] = true
 	}
@@ -207,12 +213,11 @@ func (vc *VC) applyContract(st *State, call *ast.CallExpr, c *Contract, callee *
 		if whole {
 			vc.havocAllHeap(st)
 		} else {
+			vc.havocAlloc(st)
 			vc.havocTargets(st, targets)
 		}
-		vc.havocAlloc(st)
 	} else if !c.Pure {
 		vc.havocAllHeap(st)
-		vc.havocAlloc(st)
 	}
 	results := vc.havocResults(st, callee.Name(), sig)
 	names = vc.contractNames(c, callee, sig, recv, args, results)
@@ -510,6 +515,9 @@ func (vc *VC) checkFrame(st *State, pos token.Pos, entryNames map[string]*Value)
 		if strings.HasPrefix(comp, "global:") {
 			lvl = 0
 		}
+		if strings.HasPrefix(comp, "*") {
+			continue
+		}
 		var goal string
 		switch {
 		case lvl == 0 || (strings.HasPrefix(comp, "global:")):
@@ -518,14 +526,17 @@ func (vc *VC) checkFrame(st *State, pos token.Pos, entryNames map[string]*Value)
 			}
 			goal = smtEq(cur, init)
 		default:
-			vc.nbound++
-			bn := fmt.Sprintf("r!%d", vc.nbound)
+			bn := "r!f"
 			var ex []string
 			for _, ix := range allowed[comp] {
 				ex = append(ex, smtNot(smtEq(bn, ix)))
 			}
 			cond := smtAnd(append([]string{sel("Alloc0", bn)}, ex...)...)
-			goal = "(forall ((" + bn + " Int)) (=> " + cond + " (= (select " + cur + " " + bn + ") (select " + init + " " + bn + "))))"
+			if lvl == 2 {
+				goal = "(forall ((" + bn + " Int) (i!f Int)) (=> " + cond + " (= (select " + cur + " (pr " + bn + " i!f)) (select " + init + " (pr " + bn + " i!f)))))"
+			} else {
+				goal = "(forall ((" + bn + " Int)) (=> " + cond + " (= (select " + cur + " " + bn + ") (select " + init + " " + bn + "))))"
+			}
 		}
 		vc.oblige(st, "frame", mangle(comp), "modifies: "+comp+" changed only where allowed", pos, goal)
 	}
@@ -572,6 +583,7 @@ func (vc *VC) finishObligations() {
 		o.DeclMap = vc.decls
 		o.DeclOrder = vc.declOrder
 		o.Axioms = ax
+		o.AxiomKeys = vc.axiomKeys
 		o.Distinct = distinct
 		o.Inputs = vc.inputs
 	}
